@@ -21,7 +21,7 @@ RULE = ('generated integer/float samples and plain arrays x channel subsets/orde
 ASSUMPTIONS = ['law evaluated by the oracle in float64 with rtol 1e-12 (evaluation order only)',
                'oracle parses $PnE/$PnR/$PnG itself; a1=0 with a0!=0 read as 1']
 MIN_CHECKS = {'quick': 8000, 'thorough': 150000}
-REQUIRED_COUNTERS = ['chk:rfi', 'chk:history', 'chk:refusal']
+REQUIRED_COUNTERS = ['chk:rfi', 'chk:history', 'chk:refusal', 'chk:form']
 
 
 def spell(rng, s, pos, mode=None):
@@ -109,6 +109,20 @@ def run(ctx):
             byname = to_rfi(s, spell(rng, s, pos, 0), at, ag, r)
             bypos = to_rfi(s, spell(rng, s, pos, 1), at, ag, r)
             ctx.check(same(batch, byname) and same(batch, bypos), 'history:name-vs-position', cid, channels=chans)
+            # ---- the same call with the arguments in another legal form (tuple, ndarray, NumPy integers/strings):
+            # a form the library refuses is observed only; a form it accepts must give the list form's answer
+            fname, fch = core.pick_form(rng, chans)
+            fat, fag, fr = at, ag, r
+            if use_ov and rng.random() < 0.5:
+                fat, fag, fr = (tuple(x) if x is not None else None for x in (at, ag, r))
+                fname += '+tuple-overrides'
+            o2 = core.attempt(to_rfi, s, fch, fat, fag, fr)
+            ctx.counters['chk:form'] += 1
+            if o2.raised:
+                ctx.note('form-refused:' + fname)
+            else:
+                ctx.check(same(batch, o2.value), 'form:result-depends-on-argument-form', cid, form=fname, channels=chans,
+                          at=at, ag=ag, r=r)
             # plain array with fully explicit settings gives the same values
             full_at = [s.amplification_type(p) if (not at or at[i] is None) else at[i] for i, p in enumerate(pos)]
             full_r = [s.resolution(p) if (not r or r[i] is None) else r[i] for i, p in enumerate(pos)]
